@@ -821,7 +821,11 @@ pub fn run(ctx: &Ctx) -> i32 {
     let k = lines().len() as u64;
     let nseq = seq_count(k, maxlen);
     let nst = stmts.len() as u64;
+    // the statement list is walked with a stride coprime to its length: when the wall-clock budget cuts the walk
+    // short (a loaded machine) the part covered is spread over all statement shapes instead of being a prefix
+    let stride = [7919u64, 7907, 104729, 1].into_iter().find(|p| nst % p != 0 && *p < nst.max(2)).unwrap_or(1);
     let (done, complete) = par_for_budget(ctx, nst, 1, |si| {
+        let si = (si * stride) % nst;
         let st = &stmts[si as usize];
         for idx in 0..nseq {
             let seq = seq_decode(idx, k, maxlen);
